@@ -381,6 +381,9 @@ func run(c *common.Ctx) *common.Result {
 			}
 			src = strings.ReplaceAll(src, "$T", "int64")
 			src = strings.ReplaceAll(src, "$R", "struct { A int64 }")
+			for h := range fixedHoles {
+				src = strings.ReplaceAll(src, h, "a")
+			}
 			r, derr := p.do(request{IsSingle: true, Single: src}, caseTimeout)
 			if derr != nil {
 				p, _ = startChild()
@@ -634,7 +637,7 @@ func init() {
 	common.Register(&common.Prop{
 		ID: "C01", Level: "exploration", Run: run, Coverage: coverage, Replay: replay,
 		Assumptions: []string{
-			"source texts: token strings of length <=3 (quick) / <=4 (thorough) over an 88-symbol alphabet; 188 node-kind templates x environment atoms at depth 1; depth 2 over a 4-atom (quick) / 8-atom (thorough) universe; every token-boundary prefix and single-token deletion of the depth-1 programs (quick: over reduced atom sets for 3- and 4-hole templates); byte strings of length <=3 / <=4 over 40 bytes",
+			"source texts: token strings of length <=3 (quick) / <=4 (thorough) over an 88-symbol alphabet; 246 node-kind templates x environment atoms at depth 1; depth 2 over a 4-atom (quick) / 8-atom (thorough) universe; every token-boundary prefix and single-token deletion of the depth-1 programs (quick: over reduced atom sets for 3- and 4-hole templates); byte strings of length <=3 / <=4 over 40 bytes",
 			"environment: fresh per execution; one value of every kind a script can build (made by a script prologue) plus Go functions (fixed arity 1 and 3, variadic, one that panics, one returning (value, error)) and one undefined name",
 			"integer atoms are 0, 1, -1, MaxInt64, MinInt64, 1<<62: sizes Go refuses with a recoverable panic before allocating; sizes that would really exhaust memory are not generated (outside the guarantee); a memory guard cuts cases whose heap passes 96 MiB",
 			"every execution runs under a counting context with fuel 200; fuel-exhausted and blocked executions are not violations (C01 does not promise termination); a blocked case is recognised from the goroutine states (all script goroutines parked on channels) and released by cancelling the context",
